@@ -415,9 +415,9 @@ def main(argv):
         problems.append({"kind": "proof", "what": {"pinned": msg}})
     targets = ["properties/%s.vo" % pid, "extract/Extract%s.vo" % pid] + P.get("extra_vo", [])
     with Lock():
+        rg = regen()
         gen.gen_corr()
         gen.gen_project()
-        rg = regen()
         ok, broken = coq_build(targets, P.get("coq_timeout", 1500))
         prop_v = os.path.join(COQ, "properties", "%s.v" % pid)
         names = theorem_names(prop_v) if os.path.exists(prop_v) else []
